@@ -133,8 +133,8 @@ CLAIMED = {
             "Per generated history (1..14 blocks, several bridge events per block, invalid commands, foreign multisends, edit-multisig with numeric/non-numeric payload) served by a scripted HTTP node, EVERY stored cursor "
             "position x EVERY node height x EVERY acknowledged nonce is restarted through the real minter.GetLatestMinterBlockAndNonce and context.LoadStatus/Commit; the persisted cursor must equal the reference "
             "(next event nonce = start + bridge events at or below last-checked block; batch and valset counters likewise) and the returned in-memory cursor. Command payloads (types, recipients in many spellings, "
-            "fee strings around the bound, negative, malformed, huge) must be accepted iff recipient valid for the type and fee a non-negative integer below amount less 1%. A third test hands scanner results to the connector's real CreateClaims (helper binary around minter-connector/cosmos) and requires claims in nonce order with exactly the found values, accepted by the hub, deposits crediting exactly the locked amounts. Torn status files (crash during the rewrite) are enumerated too.",
-            "The connector's main loop (package main: flag parsing, live RPC) is represented by its cursor invariant; the persisted state at a crash is the last Commit. One open finding (counters kept when stopping inside a multi-event block) is recorded and enumeration continues past it.",
+            "fee strings around the bound, negative, malformed, huge) must be accepted iff recipient valid for the type and fee a non-negative integer below amount less 1%. A third test hands scanner results to the connector's real CreateClaims (helper binary around minter-connector/cosmos) and requires claims in nonce order with exactly the found values, accepted by the hub, deposits crediting exactly the locked amounts. Torn status files (crash during the rewrite) are enumerated too. A fourth test is compiled into the connector's own package main (go test -overlay/-modfile, /repo untouched) and runs the start-up sequence of main() and the real relayMinterEvents against the scripted node in steps, with restarts and crashes leaving an older status file: every committed claim carries the event's position in the history as nonce and exactly the transaction's content, claims continue where the hub is, nothing is claimed under two nonces, the cursor equals the reference after every step.",
+            "The hub acknowledges exactly what the connector committed; tx_committer.Server's queue is drained by the test instead of being broadcast; the persisted state at a crash is the last Commit. One open finding (counters kept when stopping inside a multi-event block) is recorded and enumeration continues past it.",
             "DESIGN.md §4 C20"),
     "C15": ("exploration",
             "round-trip property-based testing (rapid): export -> JSON -> InitGenesis on a fresh instance, per-prefix state comparison plus one differential block",
